@@ -30,6 +30,8 @@ class SimBootTarget:
         self.out_of_range = []
         self.forced = None       # optional list of outcomes for flash-write commands (directed sweep)
         self.link = None
+        self.late_replies = False
+        self.late_delay = 2.6
         self.chatter_sent = 0
         self.resets = []
         self.after_reset = {}    # tid -> geometry fields that change once a new bootloader+softdevice has been flashed
@@ -100,7 +102,8 @@ class SimBootTarget:
             if self.forced:
                 outcome = self.forced.pop(0)
             else:
-                outcome = self.faults.choice('flash', 4)     # 0 ok, 1 request lost, 2 reply lost, 3 negative
+                # 0 ok, 1 request lost, 2 reply lost, 3 negative, 4 done but answered late (slow erase: 2.6-4 s)
+                outcome = self.faults.choice('flash', 5 if self.late_replies else 4)
             self.writes.append((self.sim.now, tid, bpage, fpage, n, outcome))
             if outcome == 1:
                 return
@@ -117,6 +120,9 @@ class SimBootTarget:
             if tid in self.sd_region and fpage + n > self.sd_region[tid]:
                 self.sd_written[tid] = True
             if outcome == 2:
+                return
+            if outcome == 4:
+                link.downlink(0xFF, bytes([tid, 0x18, 1, 0]), extra_delay=self.late_delay)
                 return
             link.downlink(0xFF, bytes([tid, 0x18, 1, 0]))
         elif cmd == 0x1C:
